@@ -3,6 +3,13 @@
 import json, sys
 
 CLAIMED = {
+ "C11": dict(
+   category="exploration",
+   text="Bounded-exhaustive enumeration of phase contents: every slot kind {valid, unknown API, preset ownerReferences, foreign namespace, cluster-scoped kind without / with the owner's / with another namespace, rejected by dry run} at every position of [2 objects][1 object] phases (plus single-object, three-phase, duplicate same-phase / cross-phase / via-namespace-defaulting variants; thorough adds all [1][2][1] layouts), for owners ObjectSet, ClusterObjectSet, same-cluster ObjectSetPhase and ClusterObjectSetPhase, each in rollout (two real reconcile passes) and in teardown (objects pre-existing and controlled, owner deleted, up to four real passes). Oracle on every request of every pass: no effective write on an object of a phase that contains a preflight-violating object (none at all for duplicates in an ObjectSet), persisted Available=False/PreflightError, valid inputs are rolled out, and every effective write/delete of a namespaced owner resolves to a namespaced kind in its own namespace (judged by the store key the request hit).",
+   design_ref="DESIGN.md §7 C11",
+   note="Trusted: kmodel scope semantics (cluster-scoped kinds ignore metadata.namespace), scripted dry-run rejection; ObjectTemplate owners are covered by the C18 check's namespace monitor, not here.",
+   technique="bounded-exhaustive input enumeration driven through the real controllers against the API model, request-level oracle",
+   engine="world"),
  "C01": dict(
    category="model_checking",
    text="(a) One real reconcile pass (real ObjectSet controller with native owners; real multi-cluster ObjectSetPhase controller with annotation owners) for every row of the adoption decision table: 12 owner states of the pre-existing object x 4 revision annotations x 3 package labels x 4 collisionProtection values x 4 previous lists (incl. deleted previous, delegated phase of a previous revision matched by name+UID) x 3 owner revisions x forced adoption on/off = 27 648 passes against the kmodel API model; each pass is judged against a reference function transcribed from the statement: not permitted => no non-dry-run request on the object's key, stored object byte-identical, refusal persisted as Available=False/CollisionDetected unless the object belongs to a newer revision; permitted => exactly one controller (the owner), revision annotation and spec updated. (b) Explicit-state BFS to closure over histories in which a third party creates, re-owns, relabels, re-annotates or deletes the object between reconciles (budget 4 quick / 6 thorough events, 6 systems = 3 collisionProtection values x previous declared or not); the same oracle is evaluated on the start state of every reconcile transition.",
